@@ -601,6 +601,9 @@ func (in *Interp) builtin(fr *frame, b *ssa.Builtin, c *ssa.CallCommon, args []V
 		}
 		return Iface{}
 	}
+	if len(args) == 0 {
+		panic(unsupported("builtin " + b.Name() + " (no arguments)"))
+	}
 	panic(unsupported("builtin " + b.Name() + fmt.Sprintf(" %T", args[0])))
 }
 
